@@ -160,6 +160,13 @@ func (x *Exec) cxEval(env *cxEnv, e cx) Term {
 			x.rigidLinkElem(env.live, b, i.S, t)
 			return t
 		}
+		if b.Sort == "Ref" && b.T != nil {
+			if mt, ok := b.T.Underlying().(*types.Map); ok {
+				// m[k] of a Go map, as the code reads it (the zero value for an absent key)
+				v, _ := x.mapGet(env.live, b, i, mt.Elem())
+				return v
+			}
+		}
 		if strings.HasPrefix(b.Sort, "(Array ") {
 			inner := strings.TrimSuffix(strings.TrimPrefix(b.Sort, "(Array "), ")")
 			parts := strings.SplitN(inner, " ", 2)
@@ -171,7 +178,10 @@ func (x *Exec) cxEval(env *cxEnv, e cx) Term {
 		return x.cxCallTerm(env, y)
 	case *cxQuant:
 		so := y.Sort
-		v := Term{S: y.Var + "!b", Sort: so}
+		// every quantifier gets its own bound name: a predicate unfolded under a quantifier binds the same source name again,
+		// and its arguments may mention the outer variable (capture)
+		x.quantSeq++
+		v := Term{S: fmt.Sprintf("%s!b%d", y.Var, x.quantSeq), Sort: so}
 		saved, had := env.bound[y.Var]
 		env.bound[y.Var] = v
 		body := x.cxEval(env, y.Body)
@@ -324,6 +334,11 @@ func (x *Exec) cxField(env *cxEnv, obj Term, name string, e cx) Term {
 				if strings.HasPrefix(cur.Sort, "S_") {
 					return Term{S: fmt.Sprintf("(%s_%s %s)", cur.Sort, sanitizeSym(f.Name()), cur.S), Sort: fs, T: f.Type()}, true
 				}
+				if cur.Sort != "" && named != nil {
+					// a struct value the engine keeps opaque: uninterpreted projections (the names Exec.selector uses)
+					fn := x.d.fun("fld_"+sanitizeSym(named.Obj().Name()+"_"+f.Name()), []string{cur.Sort}, fs)
+					return Term{S: fmt.Sprintf("(%s %s)", fn, cur.S), Sort: fs, T: f.Type()}, true
+				}
 			}
 		}
 		if depth < 2 {
@@ -335,8 +350,12 @@ func (x *Exec) cxField(env *cxEnv, obj Term, name string, e cx) Term {
 				var next Term
 				if isPtr && named != nil {
 					next = x.readFieldFrom(env, fieldKeyOf(named, f), x.d.sortOf(f.Type()), cur.S)
-				} else {
+				} else if strings.HasPrefix(cur.Sort, "S_") || named == nil {
 					next = Term{S: fmt.Sprintf("(%s_%s %s)", cur.Sort, sanitizeSym(f.Name()), cur.S), Sort: x.d.sortOf(f.Type())}
+				} else {
+					fs := x.d.sortOf(f.Type())
+					fn := x.d.fun("fld_"+sanitizeSym(named.Obj().Name()+"_"+f.Name()), []string{cur.Sort}, fs)
+					next = Term{S: fmt.Sprintf("(%s %s)", fn, cur.S), Sort: fs}
 				}
 				next.T = f.Type()
 				if r, ok := find(next, f.Type(), depth+1); ok {
